@@ -12,7 +12,7 @@ import (
 func init() {
 	register(&propDef{
 		ID:          "C12",
-		Explanation: "Decides, for the per-context registries of package templ and the generator's hoisting: R1 every `already rendered?` query is a check-then-record — on the not-yet-rendered side the paired record call follows with the same key, and the emission of the script/class/once body sits on that side only; R2 the registry methods touch only fields of their receiver (no package-level state), and the registry lives in the context value created per InitializeContext; R3 the two type switches over class containers agree: every container type from which the class-NAME switch extracts a component class has an acting case in the CSS-RULE switch, and every acting case of the rule switch has a case in the name switch (otherwise a class is named without its rule, or ruled under the unknown-type name); R4 on every emission path of an element writer, the calls that emit RenderCSSItems / RenderScriptItems precede the element's `<name` literal (GEM); R5 the CSS middleware records every registered class in the context it passes to the next handler and serves them from the stylesheet endpoint. R6 the map fields of the per-render state are only assigned freshly made maps (never an existing map, which would be shared between requests); R7 the once-handle registry is keyed by the handle's identity (its pointer), not by a field that only the constructor sets. R8 a render has one state object (stored by InitializeContext only, never copied by value), so marks are seen by the whole render. NOT decided: counts/positions in concrete rendered documents.",
+		Explanation: "Decides, for the per-context registries of package templ and the generator's hoisting: R1 every `already rendered?` query is a check-then-record — on the not-yet-rendered side the paired record call follows with the same key, and the emission of the script/class/once body sits on that side only; R2 the registry methods touch only fields of their receiver (no package-level state), and the registry lives in the context value created per InitializeContext; R3 the two type switches over class containers agree: every container type from which the class-NAME switch extracts a component class has an acting case in the CSS-RULE switch, and every acting case of the rule switch has a case in the name switch (otherwise a class is named without its rule, or ruled under the unknown-type name); R4 on every emission path of an element writer, the calls that emit RenderCSSItems / RenderScriptItems precede the element's `<name` literal (GEM); R5 the CSS middleware records every registered class in the context it passes to the next handler and serves them from the stylesheet endpoint. R6 the map fields of the per-render state are only assigned freshly made maps (never an existing map, which would be shared between requests); R7 the once-handle registry is keyed by the handle's identity (its pointer), not by a field that only the constructor sets. R8 a render has one state object (stored by InitializeContext only, never copied by value), so marks are seen by the whole render. R9 the collector of script definitions and the attribute writer hand the event-handler predicate the attribute name in the same form. NOT decided: counts/positions in concrete rendered documents.",
 		Assumptions: []string{"map membership is the only state of the registry"},
 		Trusted:     []string{"go/types", "go/parser", "x/tools go/packages, go/cfg"},
 		Run:         runC12,
@@ -24,6 +24,7 @@ func runC12(c *Ctx) {
 	renderStateMapsFresh(c, "C12.R6")
 	onceRegistryKey(c, "C12.R7")
 	renderStateSingle(c, "C12.R8")
+	scriptAttributeSitesAgree(c, "C12.R9")
 	p := c.pkg(".")
 	info := p.TypesInfo
 
@@ -412,4 +413,81 @@ func enclosingLoopBody(root ast.Node, n ast.Node) *ast.BlockStmt {
 		return true
 	})
 	return out
+}
+
+// scriptAttributeSitesAgree: C12.R9 — the generator has two sites that decide whether an attribute is an event
+// handler: the collector that emits the script DEFINITIONS ahead of the element, and the attribute writer that emits
+// the CALL. Both go through the same predicate; they must also hand it the attribute name in the same form. If one
+// lower-cases the name and the other does not, `ONCLICK={ f() }` gets its call written without its definition.
+func scriptAttributeSitesAgree(c *Ctx, rule string) {
+	g := c.gem()
+	info := g.info
+	// the predicate: a func(string) bool in the generator whose body tests prefixes "on"
+	var pred types.Object
+	for _, gf := range g.order {
+		sig, ok := gf.Obj.Type().(*types.Signature)
+		if !ok || sig.Params().Len() != 1 || sig.Results().Len() != 1 || sig.Results().At(0).Type().String() != "bool" || sig.Params().At(0).Type().String() != "string" {
+			continue
+		}
+		hasOn := false
+		ast.Inspect(gf.Decl.Body, func(x ast.Node) bool {
+			if e, ok := x.(ast.Expr); ok {
+				if s, isC := constString(info, e); isC && s == "on" {
+					hasOn = true
+				}
+			}
+			return true
+		})
+		if hasOn {
+			pred = gf.Obj
+		}
+	}
+	if pred == nil {
+		c.viol(rule, "anchor-lost:event-handler-predicate", "", "no func(string) bool testing the \"on\" prefix found in the generator")
+		return
+	}
+	forms := map[string][]string{}
+	n := 0
+	for _, gf := range g.order {
+		ast.Inspect(gf.Decl.Body, func(x ast.Node) bool {
+			call, ok := x.(*ast.CallExpr)
+			if !ok || len(call.Args) != 1 {
+				return true
+			}
+			if fn := calleeOf(info, call); fn == nil || types.Object(fn) != pred {
+				return true
+			}
+			n++
+			form := "as written"
+			arg := ast.Unparen(call.Args[0])
+			// follow one local assignment
+			if id, ok := arg.(*ast.Ident); ok {
+				ast.Inspect(gf.Decl.Body, func(y ast.Node) bool {
+					if as, ok := y.(*ast.AssignStmt); ok && len(as.Lhs) == 1 && len(as.Rhs) == 1 {
+						if lid, ok := as.Lhs[0].(*ast.Ident); ok && info.ObjectOf(lid) == info.ObjectOf(id) {
+							arg = ast.Unparen(as.Rhs[0])
+						}
+					}
+					return true
+				})
+			}
+			ast.Inspect(arg, func(y ast.Node) bool {
+				if c2, ok := y.(*ast.CallExpr); ok {
+					if fn := calleeOf(info, c2); fn != nil && (fullName(fn) == "strings.ToLower" || fullName(fn) == "strings.ToUpper") {
+						form = fn.Name()
+					}
+				}
+				return true
+			})
+			forms[form] = append(forms[form], gf.Name+" ("+c.pos(call.Pos())+")")
+			return true
+		})
+	}
+	var desc []string
+	for f, sites := range forms {
+		desc = append(desc, fmt.Sprintf("%s: %s", f, strings.Join(sites, ", ")))
+	}
+	sort.Strings(desc)
+	c.check(len(forms) <= 1 && n >= 2, rule, pkgGenerator+"."+pred.Name()+"|call-sites-pass-the-name-in-one-form", c.pos(pred.Pos()), fmt.Sprintf("%d call sites, one form (%s)", n, strings.Join(desc, "; ")),
+		fmt.Sprintf("the call sites of %s hand it the attribute name in different forms (%s): for a name not written in lower case (ONCLICK, onClick) one site treats the attribute as an event handler and the other does not, so the page contains the handler call without the script definition (or the definition without the call)", pred.Name(), strings.Join(desc, "; ")))
 }
